@@ -1,4 +1,4 @@
-import Proofs.Lemmas.ParserChar
+import Proofs.Lemmas.ParserLags
 import FsicModel.Solver
 /-
 C03 — Variable classification, ordering and lag/lead lengths match the script.
@@ -189,5 +189,288 @@ theorem classify_spec {S : List Stmt} {syms : List Symbol} (h : parseModel S = .
     rcases typeLe_of_exogenous hle with h1 | h1
     · exact ⟨c, hc, h1, hcn⟩
     · exact absurd (att _ ⟨c, hc, h1, hcn⟩) hno
+
+/-! ### Ordering and partition -/
+
+/-- Names of the script's terms in script order (`some name` for every non-verbatim term). -/
+def scriptNames (S : List Stmt) : List (Option String) := (scriptOcc S).map (·.name)
+
+/-- **symbol_order.**  The named symbols of an accepted script are exactly the names of its terms, each once, in
+    order of first appearance (Python-dict insertion order: re-assignment keeps the original slot); nameless
+    verbatim symbols follow. -/
+theorem symbol_order {S : List Stmt} {syms : List Symbol} (h : parseModel S = .ok syms)
+    (w1 : WellIndexed S) (w2 : NoFunctionClash S) :
+    ∃ D V, syms = D ++ V ∧ keys D = firstApp (scriptNames S) ∧ (keys D).Nodup ∧
+      (∀ v ∈ V, v.name = none ∧ v.type = .verbatim) := by
+  obtain ⟨D, V, h1, hV, hk, _, _⟩ := accepted_char h w1 w2
+  exact ⟨D, V, h1, hk, by rw [hk]; exact nodup_firstApp _, hV⟩
+
+/-- **names_partition.**  `NAMES = ENDOGENOUS ++ EXOGENOUS ++ PARAMETERS ++ ERRORS`, no name twice, and every class
+    lists its names in order of first appearance in the script. -/
+theorem names_partition {S : List Stmt} {syms : List Symbol} {o : BuildOpts} {L : Lists}
+    (h : parseModel S = .ok syms) (w1 : WellIndexed S) (w2 : NoFunctionClash S) (hb : buildLists syms o = .ok L) :
+    L.names = L.endogenous ++ L.exogenous ++ L.parameters ++ L.errors ∧ L.check = L.endogenous ∧
+    L.names.Nodup ∧
+    L.endogenous.Sublist (firstApp (scriptNames S)) ∧ L.exogenous.Sublist (firstApp (scriptNames S)) ∧
+    L.parameters.Sublist (firstApp (scriptNames S)) ∧ L.errors.Sublist (firstApp (scriptNames S)) := by
+  obtain ⟨D, V, rfl, hk, hnd, hV⟩ := symbol_order h w1 w2
+  have hL : L.endogenous = namesOfType .endogenous D ∧ L.exogenous = namesOfType .exogenous D ∧
+      L.parameters = namesOfType .parameter D ∧ L.errors = namesOfType .error D ∧
+      L.names = L.endogenous ++ L.exogenous ++ L.parameters ++ L.errors ∧ L.check = L.endogenous := by
+    unfold buildLists at hb
+    cases h1 : finalLen o.lags (autoLags (D ++ V)) o.minLags with
+    | error e => simp [h1] at hb
+    | ok a =>
+      cases h2 : finalLen o.leads (autoLeads (D ++ V)) o.minLeads with
+      | error e => simp [h1, h2] at hb
+      | ok b =>
+        simp only [h1, h2, Except.ok.injEq] at hb
+        subst hb
+        simp only [namesOfType_append, namesOfType_verbatim_tail (by decide : TermType.endogenous ≠ .verbatim) hV,
+          namesOfType_verbatim_tail (by decide : TermType.exogenous ≠ .verbatim) hV,
+          namesOfType_verbatim_tail (by decide : TermType.parameter ≠ .verbatim) hV,
+          namesOfType_verbatim_tail (by decide : TermType.error ≠ .verbatim) hV, List.append_nil, and_self]
+  obtain ⟨e1, e2, e3, e4, e5, e6⟩ := hL
+  refine ⟨e5, e6, ?_, ?_, ?_, ?_, ?_⟩
+  · rw [e5, e1, e2, e3, e4]
+    have nd : ∀ ty, (namesOfType ty D).Nodup := fun ty => (namesOfType_sublist ty D).nodup hnd
+    rw [List.append_assoc, List.append_assoc]
+    refine List.nodup_append.2 ⟨nd _, ?_, ?_⟩
+    · refine List.nodup_append.2 ⟨nd _, ?_, ?_⟩
+      · exact List.nodup_append.2 ⟨nd _, nd _, namesOfType_disjoint hnd (by decide)⟩
+      · intro a ha b hb'
+        rcases List.mem_append.1 hb' with hb' | hb'
+        · exact namesOfType_disjoint hnd (by decide) a ha b hb'
+        · exact namesOfType_disjoint hnd (by decide) a ha b hb'
+    · intro a ha b hb'
+      rcases List.mem_append.1 hb' with hb' | hb'
+      · exact namesOfType_disjoint hnd (by decide) a ha b hb'
+      · rcases List.mem_append.1 hb' with hb' | hb'
+        · exact namesOfType_disjoint hnd (by decide) a ha b hb'
+        · exact namesOfType_disjoint hnd (by decide) a ha b hb'
+  · rw [e1, ← hk]; exact namesOfType_sublist _ D
+  · rw [e2, ← hk]; exact namesOfType_sublist _ D
+  · rw [e3, ← hk]; exact namesOfType_sublist _ D
+  · rw [e4, ← hk]; exact namesOfType_sublist _ D
+
+/-! ### Lag and lead lengths -/
+
+/-- **lags_leads_spec.**  Without `lags=` / `leads=`: `LAGS = max(0 :: −offsets)` and `LEADS = max(0 :: offsets)` over
+    every integer index written anywhere in the script (a string index contributes nothing, i.e. 0). -/
+theorem lags_leads_spec {S : List Stmt} {syms : List Symbol} (h : parseModel S = .ok syms)
+    (w1 : WellIndexed S) (w2 : NoFunctionClash S) :
+    autoLags syms = .ok (maxList 0 ((scriptOffsets S).map (-·))) ∧
+    autoLeads syms = .ok (maxList 0 (scriptOffsets S)) := by
+  obtain ⟨D, V, rfl, hV, hk, hS, hE⟩ := accepted_char h w1 w2
+  -- every indexed entry holds integers, bounded by / attained among the offsets of its own name
+  have entry : ∀ c ∈ nonIndexed D,
+      (∃ m, c.lags = .int m ∧ m ≤ 0 ∧ (∀ s ∈ scriptOcc S, s.name = c.name → ∀ i, s.lags = .int i → m ≤ i) ∧
+        (m = 0 ∨ m ∈ scriptOffsets S)) ∧
+      (∃ m, c.leads = .int m ∧ 0 ≤ m ∧ (∀ s ∈ scriptOcc S, s.name = c.name → ∀ i, s.lags = .int i → i ≤ m) ∧
+        (m = 0 ∨ m ∈ scriptOffsets S)) := by
+    intro c hc
+    obtain ⟨hcD, hci⟩ := List.mem_filter.1 hc
+    have hs := hS c hcD
+    obtain ⟨s0, hs0, hs0t⟩ := hs.typeAtt
+    obtain ⟨hs0a, _⟩ := List.mem_filter.1 hs0
+    have hs0l : s0.lags ≠ .none := (w1 s0 hs0a).2 (by rw [hs0t]; exact hci)
+    constructor
+    · rcases hs.lags with ⟨_, hall⟩ | ⟨m, hm1, hm2, hm3, hm4⟩
+      · exact absurd (hall s0 hs0) hs0l
+      · refine ⟨m, hm1, hm2, ?_, ?_⟩
+        · intro s hs' hn i hi
+          exact (hm3 s (List.mem_filter.2 ⟨hs', by simp [hn]⟩)).2 i hi
+        · rcases hm4 with h0 | ⟨s, hs', hsm⟩
+          · exact Or.inl h0
+          · exact Or.inr (mem_scriptOffsets.2 ⟨s, (List.mem_filter.1 hs').1, hsm⟩)
+    · rcases hs.leads with ⟨_, hall⟩ | ⟨m, hm1, hm2, hm3, hm4⟩
+      · have := hall s0 hs0; rw [scriptOcc_leads S s0 hs0a] at this; exact absurd this hs0l
+      · refine ⟨m, hm1, hm2, ?_, ?_⟩
+        · intro s hs' hn i hi
+          have hmem : s ∈ (scriptOcc S).filter (fun s => s.name = c.name) := List.mem_filter.2 ⟨hs', by simp [hn]⟩
+          exact (hm3 s hmem).2 i (by rw [scriptOcc_leads S s hs']; exact hi)
+        · rcases hm4 with h0 | ⟨s, hs', hsm⟩
+          · exact Or.inl h0
+          · have hsa := (List.mem_filter.1 hs').1
+            exact Or.inr (mem_scriptOffsets.2 ⟨s, hsa, by rw [← scriptOcc_leads S s hsa]; exact hsm⟩)
+  -- every offset belongs to an indexed entry
+  have cover : ∀ i ∈ scriptOffsets S, ∃ c ∈ nonIndexed D, ∃ s ∈ scriptOcc S, s.name = c.name ∧ s.lags = .int i := by
+    intro i hi
+    obtain ⟨s, hs, hsi⟩ := mem_scriptOffsets.1 hi
+    obtain ⟨c, hc, hcn⟩ := hE s hs
+    have hsidx : isIndexed s.type = true := by
+      cases hidx : isIndexed s.type with
+      | true => rfl
+      | false => have := (w1 s hs).1 hidx; rw [hsi] at this; cases this
+    have hle := (hS c hc).typeLe s (List.mem_filter.2 ⟨hs, by simp [hcn]⟩)
+    exact ⟨c, List.mem_filter.2 ⟨hc, typeLe_indexed hle hsidx⟩, s, hs, hcn.symm, hsi⟩
+  constructor
+  · unfold autoLags
+    rw [nonIndexed_append_V hV]
+    obtain ⟨ms, hms1, hms2⟩ := allInts_of_forall ((nonIndexed D).map (·.lags)) (by
+      intro i hi; obtain ⟨c, hc, rfl⟩ := List.mem_map.1 hi
+      obtain ⟨⟨m, hm, _⟩, _⟩ := entry c hc; exact ⟨m, hm⟩)
+    rw [hms1]
+    have key := absmin_eq ms (scriptOffsets S) (by
+      intro m hm
+      have : Idx.int m ∈ (nonIndexed D).map (·.lags) := by rw [hms2]; exact List.mem_map_of_mem hm
+      obtain ⟨c, hc, hcm⟩ := List.mem_map.1 this
+      obtain ⟨⟨m', hm1, hm2, _, hm4⟩, _⟩ := entry c hc
+      rw [hm1] at hcm; cases hcm; exact ⟨hm2, hm4⟩) (by
+      intro i hi
+      obtain ⟨c, hc, s, hs, hn, hsi⟩ := cover i hi
+      obtain ⟨⟨m, hm1, _, hm3, _⟩, _⟩ := entry c hc
+      refine ⟨m, ?_, hm3 s hs hn i hsi⟩
+      have : Idx.int m ∈ (nonIndexed D).map (·.lags) := by rw [← hm1]; exact List.mem_map_of_mem hc
+      rw [hms2] at this
+      obtain ⟨m', hm', hmm⟩ := List.mem_map.1 this
+      cases hmm; exact hm')
+    cases ms with
+    | nil => simp only at key ⊢; rw [← key]
+    | cons x xs => simp only at key ⊢; rw [key]
+  · unfold autoLeads
+    rw [nonIndexed_append_V hV]
+    obtain ⟨ms, hms1, hms2⟩ := allInts_of_forall ((nonIndexed D).map (·.leads)) (by
+      intro i hi; obtain ⟨c, hc, rfl⟩ := List.mem_map.1 hi
+      obtain ⟨_, ⟨m, hm, _⟩⟩ := entry c hc; exact ⟨m, hm⟩)
+    rw [hms1]
+    have key := absmax_eq ms (scriptOffsets S) (by
+      intro m hm
+      have : Idx.int m ∈ (nonIndexed D).map (·.leads) := by rw [hms2]; exact List.mem_map_of_mem hm
+      obtain ⟨c, hc, hcm⟩ := List.mem_map.1 this
+      obtain ⟨_, ⟨m', hm1, hm2, _, hm4⟩⟩ := entry c hc
+      rw [hm1] at hcm; cases hcm; exact ⟨hm2, hm4⟩) (by
+      intro i hi
+      obtain ⟨c, hc, s, hs, hn, hsi⟩ := cover i hi
+      obtain ⟨_, ⟨m, hm1, _, hm3, _⟩⟩ := entry c hc
+      refine ⟨m, ?_, hm3 s hs hn i hsi⟩
+      have : Idx.int m ∈ (nonIndexed D).map (·.leads) := by rw [← hm1]; exact List.mem_map_of_mem hc
+      rw [hms2] at this
+      obtain ⟨m', hm', hmm⟩ := List.mem_map.1 this
+      cases hmm; exact hm')
+    cases ms with
+    | nil => simp only at key ⊢; rw [← key]
+    | cons x xs => simp only at key ⊢; rw [key]
+
+/-- Explicit `lags=` / `leads=` replace the computed lengths (and `min_lags` / `min_leads` are then ignored). -/
+theorem explicit_replace {syms : List Symbol} {o : BuildOpts} {L : Lists} (hb : buildLists syms o = .ok L) :
+    (∀ l, o.lags = some l → L.lags = l) ∧ (∀ l, o.leads = some l → L.leads = l) := by
+  unfold buildLists at hb
+  cases h1 : finalLen o.lags (autoLags syms) o.minLags with
+  | error e => simp [h1] at hb
+  | ok a =>
+    cases h2 : finalLen o.leads (autoLeads syms) o.minLeads with
+    | error e => simp [h1, h2] at hb
+    | ok b =>
+      simp only [h1, h2, Except.ok.injEq] at hb
+      subst hb
+      constructor
+      · intro l hl; rw [hl] at h1; simp [finalLen] at h1; exact h1.symm
+      · intro l hl; rw [hl] at h2; simp [finalLen] at h2; exact h2.symm
+
+/-- `min_lags` / `min_leads` only raise: the result is `max(auto, min)`. -/
+theorem min_only_raise {syms : List Symbol} {o : BuildOpts} {L : Lists} (hb : buildLists syms o = .ok L) :
+    (o.lags = none → ∃ a, autoLags syms = .ok a ∧ L.lags = max a o.minLags ∧ a ≤ L.lags ∧ o.minLags ≤ L.lags ∧
+      (o.minLags ≤ a → L.lags = a)) ∧
+    (o.leads = none → ∃ a, autoLeads syms = .ok a ∧ L.leads = max a o.minLeads ∧ a ≤ L.leads ∧ o.minLeads ≤ L.leads ∧
+      (o.minLeads ≤ a → L.leads = a)) := by
+  unfold buildLists at hb
+  cases h1 : finalLen o.lags (autoLags syms) o.minLags with
+  | error e => simp [h1] at hb
+  | ok a =>
+    cases h2 : finalLen o.leads (autoLeads syms) o.minLeads with
+    | error e => simp [h1, h2] at hb
+    | ok b =>
+      simp only [h1, h2, Except.ok.injEq] at hb
+      subst hb
+      constructor
+      · intro hl; rw [hl] at h1
+        cases ha : autoLags syms with
+        | error e => simp [finalLen, ha] at h1
+        | ok x =>
+          simp [finalLen, ha] at h1
+          refine ⟨x, rfl, h1.symm, ?_, ?_, ?_⟩ <;> (simp only []; omega)
+      · intro hl; rw [hl] at h2
+        cases ha : autoLeads syms with
+        | error e => simp [finalLen, ha] at h2
+        | ok x =>
+          simp [finalLen, ha] at h2
+          refine ⟨x, rfl, h2.symm, ?_, ?_, ?_⟩ <;> (simp only []; omega)
+
+/-! ### The default solution range -/
+
+/-- **default_range_feasible.**  With `LAGS = max(0 :: −offsets)` and `LEADS = max(0 :: offsets)`, the positions
+    `LAGS ≤ t ≤ n−1−LEADS` are exactly those at which every offset of the script (and `t` itself) stays inside a
+    span of length `n`. -/
+theorem default_range_feasible (offs : List Int) (n : Nat) (t : Int) :
+    (maxList 0 (offs.map (-·)) ≤ t ∧ t ≤ (n : Int) - 1 - maxList 0 offs) ↔
+    (∀ k ∈ (0 : Int) :: offs, 0 ≤ t + k ∧ t + k < n) := by
+  have a1 := (maxList_ge (offs.map (-·)) 0).1
+  have a2 := (maxList_ge (offs.map (-·)) 0).2
+  have b1 := (maxList_ge offs 0).1
+  have b2 := (maxList_ge offs 0).2
+  constructor
+  · rintro ⟨h1, h2⟩ k hk
+    rcases List.mem_cons.1 hk with rfl | hk
+    · omega
+    · have := a2 (-k) (List.mem_map.2 ⟨k, hk, rfl⟩)
+      have := b2 k hk
+      omega
+  · intro h
+    have h0 := h 0 (by simp)
+    constructor
+    · rcases maxList_mem (offs.map (-·)) 0 with e | e
+      · omega
+      · obtain ⟨k, hk, hke⟩ := List.mem_map.1 e
+        have := h k (List.mem_cons_of_mem _ hk)
+        omega
+    · rcases maxList_mem offs 0 with e | e
+      · omega
+      · have := h _ (List.mem_cons_of_mem _ e)
+        omega
+
+theorem mem_periodRange (s e t : Nat) : t ∈ periodRange s e ↔ s ≤ t ∧ t ≤ e := by
+  unfold periodRange
+  simp only [List.mem_map, List.mem_range]
+  constructor
+  · rintro ⟨a, ha, rfl⟩; omega
+  · rintro ⟨h1, h2⟩; exact ⟨t - s, by omega, by omega⟩
+
+/-- **default_range_enumerated.**  `solve()` with no `start`/`end` walks `periodRange LAGS (n−1−LEADS)`: exactly the
+    feasible positions, each once, in increasing order. -/
+theorem default_range_enumerated (lags leads n : Nat) (hleads : leads < n) :
+    (∀ t : Nat, t ∈ periodRange lags (n - 1 - leads) ↔ (lags ≤ t ∧ (t : Int) ≤ (n : Int) - 1 - leads)) ∧
+    (periodRange lags (n - 1 - leads)).Pairwise (· < ·) := by
+  constructor
+  · intro t; rw [mem_periodRange]; omega
+  · unfold periodRange
+    rw [List.pairwise_map]
+    exact (List.pairwise_lt_range).imp (by intro a b h; omega)
+
+/-- The default range is what M1's `solve` iterates over (`start`/`end` not given). -/
+theorem default_range_is_solve_range {σ V : Type} (I : Interp σ V) (o : Opts) (n lags leads : Nat) (w : World σ)
+    (h0 : ¬ o.minIter > o.maxIter) (hn : n ≠ 0) (hl : lags < n) (hd : leads < n) :
+    solve I o n lags leads none none w = solveList I o n (periodRange lags (n - 1 - leads)) w [] [] := by
+  simp [solve, h0, hn, hl, hd, resolveBound]
+
+/-- Non-vacuity: `Z = Y[2]; Y = Z[-1] + X['a']` — Y is read with a lead before it is assigned and with nothing
+    else, Z is read with a lag after being assigned; X only ever has a named-period index. -/
+def exScript : List Stmt :=
+  [.eqn [⟨"Z", .endogenous, .int 0⟩, ⟨"Y", .exogenous, .int 2⟩] "Z[t] = Y[t+2]" "self._Z[t] = self._Y[t+2]",
+   .eqn [⟨"Y", .endogenous, .int 0⟩, ⟨"Z", .exogenous, .int (-1)⟩, ⟨"X", .exogenous, .str "'a'"⟩]
+     "Y[t] = Z[t-1] + X['a']" "self._Y[t] = self._Z[t-1] + self['X', 'a']"]
+
+example : (parseModel exScript).toOption.map (fun syms => (syms.map (·.name), syms.map (·.type), syms.map (·.lags), syms.map (·.leads)))
+    = some ([some "Z", some "Y", some "X"], [.endogenous, .endogenous, .exogenous],
+            [.int (-1), .int 0, .int 0], [.int 0, .int 2, .int 0]) := by rfl
+
+example : ((parseModel exScript).toOption.bind fun syms => (buildLists syms {}).toOption).map
+      (fun L => (L.names, L.lags, L.leads))
+    = some ([some "Z", some "Y", some "X"], 1, 2) := by rfl
+
+example : scriptOffsets exScript = [0, 2, 0, -1] ∧ maxList 0 ((scriptOffsets exScript).map (-·)) = 1 ∧
+    maxList 0 (scriptOffsets exScript) = 2 := by decide
+
+example : periodRange 1 (6 - 1 - 2) = [1, 2, 3] := by decide
 
 end Fsic.C03
